@@ -148,6 +148,13 @@ H("a64_core_refusal", variant="a64-linux", modules=["rt", "a64dec", "a64_core"],
   bounds="one installation; unwind 34",
   cex_schema=[("f", 8, 1), ("entry_bytes", 1, 24), ("value", 1, 1), ("j", 8, 1)])
 
+H("a64_macos_long_jump", variant="a64-macos", modules=["rt", "a64dec", "a64_macos"],
+  covers=["COVER: long form backwards", "COVER: long form forwards", "COVER: short form", "COVER: low 12 bits all ones"],
+  functions=["arm64_codegenerator::maybe_emit_long_jump"],
+  symbolic="all word-aligned pc and all word-aligned targets in user space whose pages are within +-4 GiB of pc's page; x0..x30, sp symbolic",
+  bounds="none beyond the +-4 GiB reach of ADRP (out-of-reach pairs are outside the claim: the function has no refusal path)",
+  assumptions=["a64-macos is compile-only except for this pure encoder: mach2 and the macOS libc names are shims; the 12-byte entry glue in apply_branch_patch (copying these words) and the Mach VM remapping in patch_function are outside the claim"])
+
 # ---------------------------------------------------------------------------------------------
 # family G: the real allocator retry loop + real entry branch (C11)
 # ---------------------------------------------------------------------------------------------
@@ -232,7 +239,8 @@ H("verifier_loud", variant="x64-linux", modules=["rt", "count"],
   expected=[(r"CallCountVerifier", r".")], must_reach=[0],
   functions=["CallCountVerifier::drop"], symbolic="all (count, expectation) with count != expectation, not unwinding",
   bounds="none (all values)", assumptions=["std::thread::panicking is stubbed by a symbolic flag"])
-H("count_restarts_per_installation", variant="x64-linux", modules=["rt", "count"],
+H("count_restarts_per_installation", variant="x64-linux", modules=["rt", "count"], replay="replay_count_restarts",
+  cex_schema=[("f", 8, 1), ("entry_bytes", 1, 24), ("n", 8, 1), ("c", 8, 1)],
   covers=["COVER: leftover count, two admitted calls", "COVER: scope exit after exactly N calls with a leftover count"],
   forbidden=[(r"fake$|::fake", r"called more times than expected", ["C07"], "a call within the budget of THIS installation is refused because calls absorbed by an earlier installation of the same fake! expression still count"),
              (r"CallCountVerifier", r".", ["C07"], "scope exit reports a count mismatch although exactly N calls were made during this installation")],
@@ -248,11 +256,12 @@ GATE_FUNCS = ["WhenCalledBuilder::will_execute_raw", "WhenCalledBuilderAsync::wi
               "injector::signature_returns_bool (if present)", "FuncPtr::new", "InjectorPP::when_called", "InjectorPP::when_called_async", "str::eq / str::trim"]
 MISMATCH = (r"will_execute_raw|will_return_async|will_return_boolean", r"Signature mismatch|signature|placeholder message")
 for n, unw in ((6, 26), (12, 26)):
-    H("sig_gate_differs_%d" % n, variant="x64-linux", modules=["rt", "gates"],
+    GSCHEMA = [("f", 8, 1), ("entry_bytes", 1, 24), ("la", 8, 1), ("a", 1, n), ("lb", 8, 1), ("b", 1, n), ("t", 8, 1)]
+    H("sig_gate_differs_%d" % n, variant="x64-linux", modules=["rt", "gates"], cex_schema=GSCHEMA, replay="replay_sig_gate",
       expected=[MISMATCH], must_reach=[0], functions=GATE_FUNCS + X64_CORE_FUNCS,
       symbolic="two arbitrary ASCII strings of length <= %d as the recorded signatures of target and replacement, constrained to differ; addresses symbolic" % n,
       bounds="signature strings up to %d bytes (memcmp unwinding %d)" % (n, unw), assumptions=API_ASSUME)
-    H("sig_gate_equal_%d" % n, variant="x64-linux", modules=["rt", "gates"],
+    H("sig_gate_equal_%d" % n, variant="x64-linux", modules=["rt", "gates"], cex_schema=GSCHEMA, replay="replay_sig_gate",
       covers=["COVER: signatures of maximal length", "COVER: both signatures empty (unchecked with unchecked)"],
       forbidden=[(MISMATCH[0], MISMATCH[1], ["C09"], "a replacement whose signature is written identically to the target's is refused")],
       functions=GATE_FUNCS + X64_CORE_FUNCS,
@@ -266,7 +275,8 @@ H("null_pointer_refused", variant="x64-linux", modules=["rt", "gates"],
   expected=[(r"expect_failed|FuncPtr", r".")], must_reach=[0], functions=["FuncPtr::new"],
   symbolic="null pointer", bounds="none")
 for n in (16, 20, 22):
-    H("bool_gate_refuses_%d" % n, variant="x64-linux", modules=["rt", "gates"],
+    H("bool_gate_refuses_%d" % n, variant="x64-linux", modules=["rt", "gates"], replay="replay_bool_gate",
+      cex_schema=[("f", 8, 1), ("entry_bytes", 1, 24), ("len", 8, 1), ("sig", 1, n)],
       expected=[MISMATCH], must_reach=[0], functions=GATE_FUNCS,
       symbolic="every printable-ASCII signature string of length <= %d that an independent parser reads as `<prefix>fn(<balanced>)[ -> <ret>]` with a top-level return type other than bool (includes return types that merely END in `-> bool`)" % n,
       bounds="signature strings up to %d bytes; unwind 26" % n, assumptions=API_ASSUME, mem_gb=24)
@@ -319,6 +329,9 @@ H("async_fake_one_of_family", variant="x64-linux", modules=["rt", "x64dec", "asy
 H("async_history_family", variant="x64-linux", modules=["rt", "x64dec", "async_api"], functions=ASYNC_FUNCS, assumptions=ASYNC_ASSUME,
   symbolic="initial bytes of a method future's poll and a by-reference sibling's poll; register file",
   bounds="history fake / re-fake (checked) / fake sibling (unchecked flavour) / drop: L=3 over 2 siblings; unwind 72")
+H("async_refake_same_function", variant="x64-linux", modules=["rt", "x64dec", "async_api"], functions=ASYNC_FUNCS, assumptions=ASYNC_ASSUME,
+  symbolic="initial bytes of the poll function; value of the second replacement; register file",
+  bounds="one async function faked twice through one injector (checked API), then dropped; unwind 72")
 H("async_outputs_unit_and_large", variant="x64-linux", modules=["rt", "x64dec", "async_api"], functions=ASYNC_FUNCS, assumptions=ASYNC_ASSUME,
   symbolic="value inside a 64-byte output; initial bytes; register file",
   bounds="unit output and [u64; 8] output; unwind 72")
@@ -353,8 +366,8 @@ PROPERTIES = {
     "C12": dict(
         level_text="OS-model accounting decided by the solver: every munmap must name a live trampoline with a matching length (else the obligation fails: double free or foreign memory), after each install the live set equals the guards, after drop it equals the set before creation; one install/drop cycle from a clean state ends clean for every placement, histories L<=2/3 and two consecutive lifetimes; 32-bit ARM never maps. Unbounded cycles follow by induction because the crate keeps no state between cycles except the lock (checked by a source scan, reported as an assumption).",
         level_note="The 10^5-cycle figure is covered by the one-cycle induction step, not executed. Kernel-side limits (vm.max_map_count) are outside. The refused-install and exhaustion paths are C05/C11.",
-        quick=["x64_core_redirect", "x64_core_boolean", "x64_api_hist_l1", "arm_api_same2", "a64_core_boolean"],
-        thorough=["x64_core_redirect", "x64_core_boolean", "x64_api_hist_l2", "x64_api_hist_l3", "x64_api_hist_l1x2", "arm_core_a32", "arm_api_same2"],
+        quick=["x64_core_redirect", "x64_core_boolean", "x64_api_hist_l1", "x64_alloc_any_4k", "arm_api_same2", "a64_core_boolean"],
+        thorough=["x64_core_redirect", "x64_core_boolean", "x64_api_hist_l2", "x64_api_hist_l3", "x64_api_hist_l1x2", "x64_alloc_any_4k", "x64_alloc_layout_16m", "a64_alloc_any_4k", "arm_core_a32", "arm_api_same2", "win_core_redirect"],
         premises=["premise_only_static_is_lock"],
         outside=["cycle counts are covered by induction over one cycle, not unrolled beyond 2"],
     ),
@@ -433,15 +446,15 @@ PROPERTIES = {
     "C14": dict(
         level_text="The async macros and API are run on real `async fn`s (free functions and a method, by-value and by-reference parameters; u32, unit and 64-byte outputs; futures created and never polled, as the macros do): the solver decides that the entry that gets patched is <F as Future>::poll of exactly the named function's future type and that the poll functions of siblings - including one with the same output type - keep their bytes; that the decoded destination is the address of the function generated by async_return!, which returns Poll::Ready(v) on every call with v evaluated afresh (the value expression reads a cell the harness changes between calls); that histories fake / re-fake / fake sibling (unchecked flavour) / drop leave the latest in effect and restore everything. Output-type mismatches are refused by the C09 gate (sig_gate_async_differs).",
         level_note="Trusted: the replacement may ignore poll's arguments under the platform ABI; poll is called, not inlined; executor behaviour. Addresses of poll functions are the ones Kani assigns (concrete object ids), so address-placement generality is C01's, not this check's.",
-        quick=["async_fake_one_of_family", "async_outputs_unit_and_large", "sig_gate_async_differs_6"],
-        thorough=["async_fake_one_of_family", "async_history_family", "async_outputs_unit_and_large", "sig_gate_async_differs_6"],
+        quick=["async_fake_one_of_family", "async_refake_same_function", "async_outputs_unit_and_large", "sig_gate_async_differs_6"],
+        thorough=["async_fake_one_of_family", "async_refake_same_function", "async_history_family", "async_outputs_unit_and_large", "sig_gate_async_differs_6"],
         outside=["executors / wakers / threads", "async functions with captured non-'static state beyond the family"],
     ),
     "C15": dict(
         level_text="(a) every bit-level emitter against the A64 encoding tables for ALL inputs (all imm16/hw/Rd/sf, all 2^64 addresses in every chunk position, all register numbers); (b) the full installation: an independent A64 interpreter started at the function lands exactly on the trampoline writing no register, the trampoline builds exactly the fake's 64-bit address (all 2^64-1 values in one query) in a register in x9..x17 and branches to it, or sets w0 and returns; (c) displacements outside [-128 MiB,+128 MiB) are refused (panic reachable, nothing accepted outside).",
-        level_note="Linux variant. The macOS long-jump encoder (maybe_emit_long_jump / ADRP+ADD+BR) needs the macOS variant, see a64-macos harnesses if present. Replays are simulated.",
-        quick=["a64_emit_mov_tables", "a64_emit_branch_tables", "a64_emit_bits_roundtrip", "a64_core_boolean", "a64_core_refusal"],
-        thorough=["a64_emit_mov_tables", "a64_emit_mov_from_address", "a64_emit_branch_tables", "a64_emit_bits_roundtrip", "a64_core_redirect", "a64_core_boolean", "a64_core_refusal"],
+        level_note="Linux variant. macOS: the pure long-jump encoder maybe_emit_long_jump (B, or ADRP+ADD+BR through x16) is decided for all pc/target pairs within +-4 GiB on the a64-macos variant; the Mach VM remapping in patch_function is not modelled. Replays are simulated.",
+        quick=["a64_emit_mov_tables", "a64_emit_branch_tables", "a64_emit_bits_roundtrip", "a64_core_boolean", "a64_core_refusal", "a64_macos_long_jump"],
+        thorough=["a64_emit_mov_tables", "a64_emit_mov_from_address", "a64_emit_branch_tables", "a64_emit_bits_roundtrip", "a64_core_redirect", "a64_core_boolean", "a64_core_refusal", "a64_macos_long_jump", "a64_alloc_any_4k"],
         timeout_min={"quick": 25, "thorough": 120},
         outside=["macOS long form unless the a64-macos harnesses are listed", "execution on hardware"],
     ),
@@ -654,7 +667,7 @@ def replay_x64_core(rec, work):
             fake = "fakefn_rel F 0 %d 777" % disp
         else:
             fake = "fakefn F far 777"
-        scn = "func 0 %x %d 11\n%s\nnew\nraw 0 F\ncall 0 777\ndrop\nbytes 0\ncall 0 11\nmaps\n" % (f, off, fake)
+        scn = "func 0 %x %d 11\n%s\nnew\nraw 0 F\ncall 0 777\ncallregs 0 777\ndrop\nbytes 0\ncall 0 11\nmaps\n" % (f, off, fake)
     return _native(work, scn, rec["harness"])
 
 
@@ -682,6 +695,34 @@ def replay_x64_api(rec, work):
         lines.append("call %d %d" % (k, cur.get(k, 11 if k == 0 else 22)))
     lines += ["drop", "bytes 0", "bytes 1", "call 0 11", "call 1 22", "maps"]
     return _native(work, "\n".join(lines) + "\n", rec["harness"])
+
+
+def _hex(vals):
+    return "".join("%02x" % (v & 0xff) for v in vals) or "00"[:0]
+
+
+def replay_count_restarts(rec, work):
+    cx = rec.get("counterexample") or {}
+    c = cx.get("c", 1)
+    n = max(1, min(2, cx.get("n", 1)))
+    return _native(work, "relife %d %d\n" % (n, max(1, min(3, c if c < 4 else 1))), rec["harness"])
+
+
+def replay_bool_gate(rec, work):
+    cx = rec.get("counterexample") or {}
+    if "len" not in cx:
+        return {"reproduced": None, "detail": "counterexample values not available"}
+    sig = cx["sig"][:cx["len"]]
+    return _native(work, "func 0 - 1024 11\nboolsig 0 %s\n" % _hex(sig), rec["harness"])
+
+
+def replay_sig_gate(rec, work):
+    cx = rec.get("counterexample") or {}
+    if "la" not in cx:
+        return {"reproduced": None, "detail": "counterexample values not available"}
+    a = cx["a"][:cx["la"]]
+    b = cx["b"][:cx["lb"]]
+    return _native(work, "func 0 - 1024 11\nfakefn F near 777\nsigpair 0 F %s %s\n" % (_hex(a) or "", _hex(b) or ""), rec["harness"])
 
 
 def replay_file(path):
